@@ -1,6 +1,6 @@
 #!/usr/bin/env bash
-# Robustness self-test, second evaluation set: the 18 independently written behaviour-preserving
-# ("harmless") rewrites of tools/harmless2/B{1,2,3}/patch{1..6}.diff (each with a README.md that
+# Robustness self-test, second evaluation set: the 30 independently written behaviour-preserving
+# ("harmless") rewrites of tools/harmless2/B{1,2,3,4,5}/patch{1..6}.diff (each with a README.md that
 # explains why it preserves behaviour) must not raise an alarm in the tie between the hand-written
 # model and the translated Go text.
 #
@@ -10,9 +10,11 @@
 #      project (the real tree is never touched),
 #   3. the translator must not refuse a topic (exit status 0) — except for the topics listed in
 #      expected_refused,
-#   4. build every proof module about generated code (all LzProofs/Gen*.lean); the set of modules
-#      that fail has to be exactly the one in expected_failing (empty for most patches; the
-#      remaining alarms are explained in notes/robust.md).
+#   4. build every proof module about generated code (all LzProofs/Gen*.lean); the modules whose own
+#      proofs break have to be exactly the ones in expected_roots, and the set of modules that fail
+#      exactly these and their importers (empty for most patches; the remaining alarms — all of them
+#      STRUCTURAL rewrites: a loop moved into a helper, gotos replaced by a flag — are explained in
+#      notes/robust.md and notes/robust2.md).
 # The baseline (unpatched /repo) has to build completely first.
 #
 # usage: tools/harmless2_selftest.sh         exit status 0 iff everything is as expected
@@ -36,21 +38,49 @@ expected_refused() {
   esac
 }
 
-# patch ↦ proof modules (without the prefix LzProofs.) that are expected to fail: the module whose
-# proof breaks and every Gen* module that imports it
-expected_failing() {
+# patch ↦ the proof modules (without the prefix LzProofs.) whose OWN proofs are expected to break (the roots of the
+# alarm).  The modules expected to fail are these and every Gen* module that imports one of them, directly or not
+# (closure below, computed from the import lines of LzProofs/*.lean); the script checks both: the set of modules that
+# fail is exactly that closure, and the modules that report errors of their own are exactly the roots.
+# One line of reason per remaining alarm; details in notes/robust.md (B1–B3) and notes/robust2.md (B4, B5).
+expected_roots() {
   case "$1" in
-    # the doubling-copy loop moves into the new helper appendMatch: D08/D09 (GenBufPropsDCopy) are proved by
-    # induction along the loop functions of WriteMatch/WriteBlock, which no longer exist (notes/robust.md);
-    # the other modules are the Gen* modules that import GenBufPropsDCopy (directly or not)
-    B3/patch2) echo "GenBufPropsDCopy GenBufProps GenDecoderProps GenHPHist GenHPHistEx GenHPHistRF GenHPHistRF2 GenHPHistRun GenBHPHist GenBHPHistEx GenBHPHistRun GenDHPHist GenDHPHistEx GenDHPHistRun GenBDHPHist GenBDHPHistEx GenBDHPHistRun GenC19Hist GenC19HistEx" ;;
-    # ReadFrom rewritten as `for len(b.Data) < b.BufferSize { … return … }` with the window lent WITHOUT a name
-    # (`r.Read(b.Data[len(b.Data):end])`): accepted by the translator (anonymous lent window, code_lend.go), but the loop
-    # function has another state and exit codes; GenPBufReadFrom.loop_step follows the loop function of the current text
-    # (notes/bup-readfrom-translate.md §5); GenHPHistRF2 imports it
-    B3/patch3) echo "GenPBufReadFrom GenHPHistRF2" ;;
+    # STRUCTURAL: the doubling-copy loop moves into the new helper appendMatch: D08/D09 (GenBufPropsDCopy) are proved by
+    # induction along the loop functions of WriteMatch/WriteBlock, which no longer exist (notes/robust.md)
+    B3/patch2) echo "GenBufPropsDCopy" ;;
+    # STRUCTURAL: the match-extension loop of hp.go moves into the new helper extendMatch (other state: counts from 0, result
+    # in a ret component, no goto exit) and the re-hash loop is renumbered: the one line that names the two inner loops
+    # (`open … renaming … → rehashLoop, … → extLoop` in GenHPParseLemmas) and loop2_eq (spec of the moved loop) fail
+    B4/patch3) echo "GenHPParseLemmas" ;;
+    # STRUCTURAL: the re-hash loop of hp.go AND bhp.go moves into the new method (*hashDictionary).rehash (accepted by the
+    # translator since the footprint rule): its loop function works on hashDictionary instead of hashParser /
+    # backwardHashParser, loop3_eq / loop3_eqB are stated about the loop of Parse
+    B4/patch6) echo "GenHPParseLemmas" ;;
+    # STRUCTURAL: both gotos of dhp.go replaced by a `mismatch` flag: the two extension loops have another state tuple and
+    # no exit code; only their specs (loop2_spec, loop6_spec, loop2_cont, loop6_cont) fail, the callers are proved from them
+    B5/patch4) echo "GenDHPParseLemmas" ;;
+    # STRUCTURAL: the forward extension loops of bdhp.go move into the helper extendMatch (extra ret component in the loop
+    # state): one tactic line each in loop5_step and loop1_step (`extBlock_at …`) fails, everything else goes through
+    B5/patch5) echo "GenBDHPParseLoop" ;;
     *) echo "" ;;
   esac
+}
+
+# closure <roots…>: the roots and every Gen* module importing one of them (transitively, through any LzProofs module)
+closure() {
+  [ $# -eq 0 ] && return
+  local lean="$HERE/lean/LzProofs" frontier="$*" seen=" $* " next m f imp
+  while [ -n "$frontier" ]; do
+    next=""
+    for m in $frontier; do
+      for f in $(grep -l "^import LzProofs\.$m\$" "$lean"/*.lean 2>/dev/null); do
+        imp="$(basename "$f" .lean)"
+        case "$seen" in *" $imp "*) ;; *) seen="$seen$imp "; next="$next $imp" ;; esac
+      done
+    done
+    frontier="$next"
+  done
+  for m in $seen; do case " $MODULES " in *" $m "*) echo "$m" ;; esac; done | sort | tr '\n' ' '
 }
 
 (cd "$HERE/tools/extract" && go build -o "$EXTRACT" .) || { echo "cannot build the extractor"; exit 1; }
@@ -116,17 +146,20 @@ one_patch() {
   if [ "$refused" != "$want" ]; then
     status=FAIL; msg="$msg refused topics [$refused], expected [$want]: $(grep -v REFUSED "$dir.err" | head -2 | sed 's/^ *//' | tr '\n' ' ');"
   fi
-  local failing wantfail
+  local failing wantfail roots wantroots
   failing="$(build_all "$lean" "$dir.log")"
-  wantfail="$(echo $(expected_failing "$name" | tr ' ' '\n' | sort))"
+  wantroots="$(echo $(expected_roots "$name" | tr ' ' '\n' | sort))"
+  wantfail="$(echo $(closure $wantroots))"
   failing="$(echo $(echo $failing | tr ' ' '\n' | sort))"
-  if [ "$failing" != "$wantfail" ]; then
-    status=FAIL; msg="$msg failing modules [$failing], expected [$wantfail]; failing theorems: $(cat "$dir.log" "$dir.log".* 2>/dev/null >"$dir.all.log"; failing_theorems "$dir.all.log" "$lean");"
+  cat "$dir.log" "$dir.log".* 2>/dev/null >"$dir.all.log"
+  roots="$(echo $(grep -ho 'error: LzProofs/[A-Za-z0-9]*\.lean:[0-9]*' "$dir.all.log" | sed 's/error: LzProofs\///; s/\.lean.*//' | sort -u))"
+  if [ "$failing" != "$wantfail" ] || [ "$roots" != "$wantroots" ]; then
+    status=FAIL; msg="$msg modules with errors of their own [$roots], expected [$wantroots]; failing modules [$failing], expected [$wantfail]; failing theorems: $(failing_theorems "$dir.all.log" "$lean");"
   fi
   rm -rf "$dir"
   if [ "$status" = ok ]; then
     if [ -n "$wantfail$want" ]; then
-      echo "ok*   $name: KNOWN alarm — refused topics [$refused], failing modules [$failing] (notes/robust.md); everything else builds"
+      echo "ok*   $name: KNOWN alarm — refused topics [$refused], proofs break in [$roots] ($(echo $failing | wc -w) modules with their importers; failing theorems: $(failing_theorems "$dir.all.log" "$lean")); everything else builds"
     else
       echo "ok    $name: nothing refused, all proof modules build"
     fi
